@@ -16,8 +16,9 @@
 #include "xtl/xcomplex.hpp"
 #include "xtl/xsequence.hpp"
 #include "xtl/xdynamic_bitset.hpp"
+#include "xtl/xoptional_sequence.hpp"
 
-#define CLOSURE_OPS(X) X(build) X(write) X(owner_write) X(copy) X(assign) X(move_assign) X(swap) X(destroy) X(read) X(forward_sequence) X(bit_reference) X(cross_closure)
+#define CLOSURE_OPS(X) X(build) X(write) X(owner_write) X(copy) X(assign) X(move_assign) X(swap) X(destroy) X(read) X(forward_sequence) X(bit_reference) X(cross_closure) X(element_proxy)
 
 namespace clops
 {
@@ -256,6 +257,18 @@ namespace
             case 5: { auto& r = xtl::value(cw); return &r == &cw.value() ? r.id : MISPLACED; }
             case 6: return after_death(cw, [](W&& x) -> decltype(auto) { return xtl::value(std::move(x)); }, this->value_addr);
             case 8: return amp_after_death(cw, [](const W& x) { return x.value().id; });
+            case 9:
+            {
+                // value_or on a temporary wrapper hands out a copy: it never moves out of what the wrapper designates or owns
+                Suspend s;
+                W t(cw);
+                P dflt(uint64_t(0));
+                bool was_moved = cw.value().moved;       // (a moving assignment may legitimately have left it so)
+                uint64_t got = std::move(t).value_or(dflt).id;
+                if (cw.value().moved && !was_moved) return MOVED_OUT;
+                uint64_t got2 = static_cast<const W&>(cw).value_or(dflt).id;
+                return got == got2 ? got : ~uint64_t(0);
+            }
             default:
             {
                 // the flag through every accessor: true, and for a reference closure the caller's own flag
@@ -272,7 +285,7 @@ namespace
             }
             }
         }
-        int forms() const override { return 9; }
+        int forms() const override { return 10; }
         void write(uint64_t v, int form) override { Suspend s; P val(v); if (form == 0) *this->w = val; else if (form == 1) this->w->value() = val; else xtl::value(*this->w) = val; }
         const void* addr() override { return &static_cast<const W&>(*this->w).value(); }
         const void* addr_amp() override
@@ -384,6 +397,15 @@ namespace
         void write(uint64_t v, int form) override
         {
             if (form == 0) { this->w->real() = static_cast<double>(v); this->w->imag() = -static_cast<double>(v); }
+            else if (form == 2)
+            {
+                // complex = scalar, the scalar being (a reference to) the wrapper's own imaginary part: (re, im) becomes (im, 0)
+                double old_im = this->w->imag();
+                *this->w = this->w->imag();
+                if (!(this->w->real() == old_im && this->w->imag() == 0))
+                    defer("model", "C07/write-through/complex_assigned_its_own_imaginary_part", "z = z.imag() gave (" + std::to_string(this->w->real()) + ", " + std::to_string(this->w->imag()) + "), expected (" + std::to_string(old_im) + ", 0)");
+                *this->w = static_cast<double>(v); this->w->imag() = -static_cast<double>(v);
+            }
             else { *this->w = static_cast<double>(v); this->w->imag() = -static_cast<double>(v); }   // complex = real sets imag to 0 first
         }
         const void* addr() override { return &static_cast<const W&>(*this->w).real(); }
@@ -825,7 +847,79 @@ namespace
             if (static_cast<bool>(b[j]) != static_cast<bool>(b[i])) viol("model", "rebind", "assigning one element reference to another did not copy the bit value");
             b.set(i, false);
             if (i != j && !b[j]) viol("model", "rebind", "assigning one element reference to another rebound it");
+            {
+                // const element references and const iterators are references too, not snapshots: held across a write through
+                // another path they read the new value
+                const auto& cb = b;
+                auto cr = cb[j];
+                auto cr2 = cr;
+                auto cit = cb.cbegin() + static_cast<std::ptrdiff_t>(j);
+                bool was = static_cast<bool>(cr);
+                b.set(j, !was);
+                if (static_cast<bool>(cr) != !was || static_cast<bool>(cr2) != !was) viol("model", "alias", "a const bitset element reference held across a write still reads the old bit");
+                if (static_cast<bool>(*cit) != !was) viol("model", "alias", "a const bitset iterator held across a write reads the old bit");
+                b[j].flip();
+                if (static_cast<bool>(cr) != was) viol("model", "alias", "a const bitset element reference does not follow a flip through a non-const reference");
+            }
             SIM_PROBE("bitset_reference_checked");
+            check_all();
+        }
+
+        // Element proxies of the optional containers are xoptional closures over (reference to the value, reference proxy onto
+        // the flag bit): swap exchanges both referents, assignment writes both through, nothing else changes, nothing rebinds.
+        template <class C>
+        void element_proxy(C& c, std::vector<int>& mv, std::vector<bool>& mf, const Step& st, unsigned v)
+        {
+            size_t n = mv.size();
+            size_t i = static_cast<size_t>(st.a % n), j = static_cast<size_t>(st.b % n);
+            const int* pi = &c[i].value();
+            const int* pj = &c[j].value();
+            auto a = c[i];
+            auto b = c[j];
+            switch (v)
+            {
+            case 0: a.swap(b); { int t = mv[i]; mv[i] = mv[j]; mv[j] = t; bool f = mf[i]; mf[i] = mf[j]; mf[j] = f; } break;
+            case 1: b.swap(a); { int t = mv[i]; mv[i] = mv[j]; mv[j] = t; bool f = mf[i]; mf[i] = mf[j]; mf[j] = f; } break;
+            case 2: a = xtl::as_const(c)[j]; mv[i] = mv[j]; mf[i] = mf[j]; break;          // (proxy = proxy of the same type is deleted)
+            case 3: c[i] = xtl::as_const(c)[j]; mv[i] = mv[j]; mf[i] = mf[j]; break;
+            case 4: a = xtl::missing<int>(); mf[i] = false; mv[i] = c[i].value(); break;      // the value under a missing flag is unspecified
+            case 5: { int nv = static_cast<int>(st.c % 100000); a = nv; mv[i] = nv; mf[i] = true; } break;
+            case 6: { auto o = xtl::optional(static_cast<int>(st.c % 1000), (st.c & 1024) != 0); a = o; mv[i] = static_cast<int>(st.c % 1000); mf[i] = (st.c & 1024) != 0; } break;
+            default: { auto cpy = a; cpy = xtl::as_const(c)[j]; mv[i] = mv[j]; mf[i] = mf[j]; } break;             // a copy of a proxy designates the same element
+            }
+            if (&c[i].value() != pi || &c[j].value() != pj || &a.value() != pi || &b.value() != pj) viol("model", "rebind", "an operation on element proxies rebound one of them");
+            for (size_t k = 0; k < n; ++k)
+            {
+                bool f = static_cast<bool>(c[k].has_value());
+                if (f != mf[k]) viol("model", "flag", "element " + std::to_string(k) + " of " + std::to_string(n) + ": flag is " + (f ? "set" : "clear") + " after the operation on elements " + std::to_string(i) + " and " + std::to_string(j) + ", expected " + (mf[k] ? "set" : "clear"));
+                if (c[k].value() != mv[k]) viol("model", "value", "element " + std::to_string(k) + ": value is " + std::to_string(c[k].value()) + ", expected " + std::to_string(mv[k]));
+                if (static_cast<bool>(c.has_value()[k]) != mf[k] || c.value()[k] != mv[k]) viol("model", "storage", "element " + std::to_string(k) + ": the storages disagree with the element proxy");
+            }
+        }
+        void op_element_proxy(const Step& st)
+        {
+            static const char* const vn[] = {"swap", "swap_reversed", "assign_const_proxy", "temporary_assign_const_proxy", "assign_missing", "assign_value", "assign_owning_optional", "assign_through_copy"};
+            unsigned v = static_cast<unsigned>(st.d % 8);
+            bool arr = (st.d >> 3) & 1;
+            Scope sc(*this, st, "element_proxy", std::string(vn[v]) + (arr ? "_array" : "_vector"));
+            const size_t n = arr ? 5 : 2 + static_cast<size_t>((st.d >> 4) % 70);
+            std::vector<int> mv(n);
+            std::vector<bool> mf(n);
+            uint64_t bits = st.c * 0x9e3779b97f4a7c15ULL + st.a;
+            for (size_t k = 0; k < n; ++k) { mv[k] = static_cast<int>(1000 + k); mf[k] = ((bits >> (k % 61)) ^ (k / 61)) & 1; }
+            if (arr)
+            {
+                xtl::xoptional_array<int, 5> c;
+                for (size_t k = 0; k < n; ++k) { c[k] = mv[k]; if (!mf[k]) c.has_value()[k] = false; }
+                element_proxy(c, mv, mf, st, v);
+            }
+            else
+            {
+                xtl::xoptional_vector<int> c(n, 0);
+                for (size_t k = 0; k < n; ++k) { c[k] = mv[k]; if (!mf[k]) c.has_value()[k] = false; }
+                element_proxy(c, mv, mf, st, v);
+            }
+            SIM_PROBE("optional_element_proxies_checked");
             check_all();
         }
 
@@ -920,6 +1014,7 @@ namespace
             case OP_read: { Scope sc(*this, st, "read", "all"); check_all(); } break;
             case OP_forward_sequence: op_forward_sequence(st); break;
             case OP_bit_reference: op_bit_reference(st); break;
+            case OP_element_proxy: op_element_proxy(st); break;
             default: { StepScope sc(run, st, "noop"); } break;
             }
         }
@@ -941,7 +1036,7 @@ namespace
         size_t n = 1;
         while (n < 25 && cfg.below(9) != 0) ++n;
         plan.params.push_back(n);
-        unsigned w[OP_COUNT] = {10, 8, 6, 4, 4, 3, 4, 2, 2, 1, 1, 2};
+        unsigned w[OP_COUNT] = {10, 8, 6, 4, 4, 3, 4, 2, 2, 1, 1, 2, 2};
         if (cfg.below(3) == 0) for (unsigned i = 1; i < OP_COUNT; ++i) if (cfg.below(4) == 0) w[i] = 0;
         unsigned total = 0;
         for (unsigned i = 0; i < OP_COUNT; ++i) total += w[i];
